@@ -585,6 +585,57 @@ def typed_counter_case(rng):
     return sels, evs
 
 
+def shared_parent_case(rng):
+    """several selectors whose last step hangs off the SAME parent compound by the same combinator (they are merged
+    into one jumps set, in registration order), mixing compounds that need attributes (bail-out + resumption inside
+    the set) with type-only ones, aimed at children whose tag names pass the earlier instructions' name tests"""
+    t = lambda n: ("t", n)
+    k = lambda n: ("k", n)
+    st = lambda n, attrs=(), ns="h", sc=False: ("s", n, ns, sc, list(attrs))
+    en = lambda n: ("e", n)
+    parent = rng.choice(["div", "ul", "section", "p"])
+    kids = rng.sample(["span", "a", "li", "b", "em", "i"], 3)
+    comb = rng.choice(["c", "c", "d"])
+    pool = []
+    for kid in kids:
+        pool += [[t(kid)], [t(kid), k("a")], [k("a")], [t(kid), ("i", "x")], [("e", "href")], [t(kid), ("e", "title")],
+                 [("u",), k("foo")], [t(kid), ("n", 0, 1)]]
+    nsel = rng.randrange(2, 6)
+    lasts = [rng.choice(pool) for _ in range(nsel)]
+    if rng.random() < 0.7:
+        # an attribute-needing compound registered BEFORE a type-only one for the same tag
+        kid = rng.choice(kids)
+        lasts[0] = rng.choice([[k("a")], [t(kid), k("a")], [("e", "href")], [("u",), k("foo")]])
+        lasts[1] = [t(kid)]
+    pcomp = rng.choice([[t(parent)], [t(parent), k("p")], [("u",)]])
+    sels = [[[list(pcomp), comb, list(l)]] for l in lasts]
+    if rng.random() < 0.3:
+        sels.insert(rng.randrange(0, len(sels) + 1), [[list(l)] for l in [rng.choice(pool)]])
+    evs = []
+    if rng.random() < 0.3:
+        evs.append(st("body"))
+    evs.append(st(parent, [("class", rng.choice(["p", "q", "p q"]))] if rng.random() < 0.6 else []))
+    for _ in range(rng.randrange(2, 7)):
+        kid = rng.choice(kids)
+        attrs = []
+        if rng.random() < 0.4:
+            attrs.append(("class", rng.choice(["a", "foo", "a foo", "b"])))
+        if rng.random() < 0.25:
+            attrs.append(("id", "x"))
+        if rng.random() < 0.25:
+            attrs.append((rng.choice(["href", "title"]), "v"))
+        evs.append(st(kid, attrs))
+        if rng.random() < 0.4:
+            g = rng.choice(kids)
+            evs += [st(g, [("class", "a")] if rng.random() < 0.5 else []), en(g)]
+        evs.append(en(kid))
+    evs.append(en(parent))
+    if rng.random() < 0.4:
+        kid = rng.choice(kids)
+        evs += [st(kid, [("class", "a")]), en(kid)]
+    return sels, evs
+
+
 def make_case(rng, sels, evs, esi):
     html = html_of(evs)
     r = rng.random()
@@ -613,6 +664,12 @@ def gen(rng, n, tier, pid):
         _META[c] = (sels, evs)
         cases.append(c)
     while len(cases) < n:
+        if rng.random() < 0.07:
+            sels, evs = shared_parent_case(rng)
+            c = make_case(rng, sels, evs, False)
+            _META[c] = (sels, evs)
+            cases.append(c)
+            continue
         if rng.random() < 0.06:
             sels, evs = typed_counter_case(rng)
             c = make_case(rng, sels, evs, False)
